@@ -38,20 +38,37 @@ Definition check_build (c : build_case) : list string :=
         else [("viol:digest-differs/" ++ b_dim c ++ ";first-differing-artifact=" ++ r)%string]
     end.
 
-(* ---- install_if (finding C01-F1) ---------------------------------------------
-   Universe of the harness: top depends on d1..dn; xi has install_if = [di].
-   f_orders: the distinct install orders observed (resolver in process, or
-   lib/apk/db/installed of repeated identical CLI builds); f_digests: image
-   manifest digest of every CLI build. *)
-Record installif_case := { f_kind : string; f_n : nat; f_orders : list (list string); f_digests : list string }.
-
+(* ---- install_if (was finding C01-F1, fixed by c03e0c0) -------------------------
+   Universe of the harness: top depends on the leaf packages f_deps (in that
+   order); f_pkgs are the install_if packages in index order (name, install_if
+   entries — leaf names or names of other install_if packages: several
+   triggers, chains).  f_orders: the distinct install orders observed (resolver
+   in process, or lib/apk/db/installed of repeated identical CLI builds);
+   f_digests: image manifest digest of every CLI build.  Every observed order
+   must EQUAL the model's one order, and repeated runs must agree. *)
+Record installif_case := { f_kind : string; f_pkgs : list iipkg; f_deps : list string;
+                           f_orders : list (list string); f_digests : list string }.
+Definition IP := Build_iipkg.
 Definition digit (i : nat) : string :=
   match i with 0 => "0" | 1 => "1" | 2 => "2" | 3 => "3" | 4 => "4" | 5 => "5" | 6 => "6" | 7 => "7" | 8 => "8" | _ => "9" end.
-Definition ii_deps (n : nat) : list string := List.map (fun i => ("d" ++ digit i)%string) (seq 1 n).
-Definition ii_map (n : nat) : list (string * list iipkg) :=
-  List.map (fun i => (("d" ++ digit i)%string, [{| ii_name := ("x" ++ digit i)%string; ii_if := [("d" ++ digit i)%string] |}])) (seq 1 n).
-Definition model_order (n : nat) (ord : list string) : list string :=
-  install_if_pass (ii_map n) (ii_deps n) ord ++ ["top"].
+
+(* `apko build` resolves twice: the world [top] is locked first and the build
+   context resolves the LOCKED world — every member as name=version, sorted
+   (sort.Strings; for the harness's names that is the order of the names).
+   GetPackagesWithDependencies then takes the requests in that order: a request
+   for a leaf or an install_if package contributes itself (its own install_if
+   loop runs over an empty dependency list), the request for top contributes
+   what is not yet tracked of [l] = its dependency list after the install_if
+   loop, in that order, then top. *)
+Definition cli_order (l : list string) : list string :=
+  fold_left (fun acc w => if String.eqb w "top" then acc ++ List.filter (fun x => negb (mem x acc)) l ++ ["top"]
+                          else if mem w acc then acc else acc ++ [w]) (ssort (l ++ ["top"])) [].
+
+Definition model_order (c : installif_case) : option (list string) :=
+  match install_if_pass (ii_build (f_pkgs c)) (f_deps c) with
+  | Some l => Some (if String.eqb (f_kind c) "cli-build" then cli_order l else l ++ ["top"])
+  | None => None
+  end.
 
 Fixpoint all_same {A} (eqb : A -> A -> bool) (l : list A) : bool :=
   match l with
@@ -60,12 +77,15 @@ Fixpoint all_same {A} (eqb : A -> A -> bool) (l : list A) : bool :=
   end.
 
 Definition check_installif (c : installif_case) : list string :=
-  let n := f_n c in
-  (* every observed order is the model's order for SOME iteration order of the map *)
-  tag_if (negb (forallb (fun o => existsb (fun ord => list_eqb String.eqb (model_order n ord) o) (perms (ii_deps n))) (f_orders c)))
-    "mismatch:install-order-is-not-a-model-order" ++
   let orders_same := all_same (list_eqb String.eqb) (f_orders c) in
   let digests_same := all_same String.eqb (f_digests c) in
+  (match model_order c with
+   | None => ["mismatch:install-if-model-out-of-fuel"]
+   | Some mo =>
+       tag_if (match f_orders c with [] => true | _ => false end) "mismatch:harness-shape/no-install-order-observed" ++
+       (* reported only when the runs agree: a difference between the runs is the violation below *)
+       tag_if (orders_same && negb (forallb (list_eqb String.eqb mo) (f_orders c))) "mismatch:install-order-differs-from-model"
+   end) ++
   if orders_same then
     tag_if (negb digests_same) "viol:digest-differs/install-if-configuration-with-identical-install-order"
   else
